@@ -5,6 +5,8 @@ CONSTANTS
   AsFound_SignedRelativeTest = FALSE
   AsFound_NearZeroBandIgnoresDrift = FALSE
   AsFound_ExclusionBySubstring = FALSE
+  AsFound_DecorativeUntested = FALSE
+  AsFound_DecorativeExcluded = FALSE
 INVARIANT TypeOK
 INVARIANT C15_AcceptedIsSteady
 INVARIANT C15_JudgesExactlyNonExcluded
